@@ -1,6 +1,7 @@
 package props
 
 import (
+	"bytes"
 	"crypto"
 	"fmt"
 	"strings"
@@ -492,6 +493,60 @@ func init() {
 			}
 		}, nil
 	}
+	// "encoding is deterministic": a claims type with several embedded structs at one level, encoded under every iteration
+	// order of whatever maps the encoder ranges over (instrumented build), repeatedly
+	Scenarios["c18.several-embedded-structs"] = func() (choice.Scenario, func() any) {
+		first := map[string]string{}
+		return func(c *choice.Ctx) {
+			if !c18Mine(1) {
+				return
+			}
+			js := c.Choose("format", 2) == 1
+			nperm := 1
+			if instrOn {
+				nperm = 24
+			}
+			perm := c.Choose("iteration-order", nperm)
+			a := *c02Claims()[3]
+			a.Canon, a.Profile = ExtTwoEmbedsName, sp(ExtTwoEmbedsName)
+			xi, err := buildBySetters(&a)
+			if err != nil {
+				panic(choice.HarnessError{Msg: err.Error()})
+			}
+			x := xi.(*ExtTwoEmbedsClaims)
+			v, m, b := "acme", "m1", int64(12)
+			x.Vendor, x.Model, x.Build = &v, &m, &b
+			if instrOn {
+				attachHook(&sched.Recorder{PermIndex: perm})
+				defer attachHook(nil)
+			}
+			var out []byte
+			for rep := 0; rep < 3; rep++ {
+				var o []byte
+				if js {
+					o, err = psatoken.EncodeClaimsToJSON(x)
+				} else {
+					o, err = psatoken.EncodeClaimsToCBOR(x)
+				}
+				if err != nil {
+					c.Failf("C18:several-embedded-structs:encode-error", "%v", err)
+					return
+				}
+				if rep > 0 && !bytes.Equal(o, out) {
+					c.Failf(fmt.Sprintf("C18:not-repeatable:encoding:several-embedded-structs:json=%v", js), "two encodings of the same claims-set differ\n%x\n%x", out, o)
+				}
+				out = o
+			}
+			c18stats.StateStr(fmt.Sprint("several-embedded", js, perm))
+			c18stats.Trans.Add(3)
+			k := fmt.Sprint(js)
+			if perm == 0 {
+				first[k] = string(out)
+			} else if f, ok := first[k]; ok && f != string(out) {
+				c.Failf(fmt.Sprintf("C18:encoding-depends-on-iteration-order:several-embedded-structs:json=%v", js), "under iteration order #%d the encoding differs from the one under order #0\n%x\n%x", perm, f, out)
+			}
+		}, nil
+	}
 	// the caller's buffer refilled with another input of the same length and presented to the SAME object again:
 	// nothing may be remembered about (or through) the buffer
 	Scenarios["c18.buffer-reuse"] = func() (choice.Scenario, func() any) {
@@ -603,6 +658,7 @@ func init() {
 		exploreChoiceOpts(r, "c18.evidence", -1, dl, 1)
 		exploreChoiceOpts(r, "c18.alias", -1, dl, 1)
 		exploreChoiceOpts(r, "c18.buffer-reuse", -1, dl, 1)
+		exploreChoiceOpts(r, "c18.several-embedded-structs", -1, dl, 1)
 		b := 3 // construction/op1/op2 are choices too: bound 3 = every op pair on the baseline object + every single op on every 1-deviation object
 		if thorough(r) {
 			b = 4
